@@ -296,6 +296,10 @@ class Solver(object):
     def reorder_particles(self):
         """Re-order particles so as to coalesce memory access.
         """
+        # The arrays may have changed since the NNPS was last updated (ghosts
+        # re-created at the end of the step, particles added or removed by
+        # inlets/outlets): the ordering must be computed for what is there.
+        self.nnps.update()
         for i in range(len(self.particles)):
             self.nnps.spatially_order_particles(i)
         # We must update after the reorder.
